@@ -154,6 +154,11 @@ structure PTask where
   unstarted  : Bool                -- in `_tasks_unstarted`: the wrapper has not taken its first step
   cancelledEarly : Bool            -- in `_tasks_cancelled_early`: cancelled through the pool while unstarted
   doneCbs    : List (Nat × Nat)    -- gather child slots registered on this task
+  endCb      : CbSpec              -- the end callback bound into the wrapper when the task was created
+  cancelCb   : CbSpec              -- the cancel callback likewise
+  nEC        : Nat                 -- ghost: how often the end callback was entered
+  nCC        : Nat                 -- ghost: how often the cancel callback was entered
+  wasCancelled : Bool              -- ghost: the coroutine ended by cancellation (`except CancelledError` was taken)
 deriving Repr, Inhabited
 
 structure Item where
